@@ -1,0 +1,16 @@
+//go:build verif
+
+// Contracts for the verifier in /verif (comment-only; adds no code).
+package numscript
+
+//@ safetyprop C12
+
+// The public entry point: on error nothing of the run escapes.
+//@ func (ParseResult).RunWithFeatureFlags
+//@   requires [wf] wf(p.parseResult.Value)
+//@   requires [store] store != nil
+//@   ensures [empty-on-error] {C03,C12} err != nil ==> len(result.Postings) == 0 && result.Metadata == nil && result.AccountsMetadata == nil
+//@   ensures [postings-positive] {C02} err == nil ==> forall(k, 0, len(result.Postings), result.Postings[k].Amount != nil && val(result.Postings[k].Amount) > 0)
+//@   ensures [dest-not-kept] {C02,C05} err == nil ==> forall(k, 0, len(result.Postings), result.Postings[k].Destination != "<kept>")
+//@   ensures [inputs-untouched] {C11} heapsame(bigint)
+//@   modifies nothing
